@@ -25,7 +25,9 @@ class Contract:
     def __init__(self, qual, params=None, requires=(), ensures=(), raises=None, modifies=(), returns=None, let=None,
                  inline=False, spec=None, drops=(), props=(), name=None, exc_ensures=None, hints=(),
                  use_at_calls=True, expect_raise_paths=None, path_assumes=(), trusted=False, note=None,
-                 allow_other_exc=(), overrides=None, max_paths=400, timeout_s=None, kwargs_call=None, pure=False, varargs=None, harness=None, module=None):
+                 allow_other_exc=(), overrides=None, max_paths=400, timeout_s=None, kwargs_call=None, pure=False, varargs=None, harness=None, module=None, native_patches=None, loop=None):
+        self.loop = loop
+        self.native_patches = native_patches or {}
         self.harness = harness
         self.module = module
         self.pure = pure
@@ -310,6 +312,15 @@ class Engine:
             return None
         if isinstance(v, str):
             return SV(fresh(label, StrS))
+        if isinstance(v, SList):
+            # the callee may rebind the field to a new list object: fresh object, fresh length and contents
+            ns = SList(None, fresh(label + '_len', I), label)
+            path.pc.append(ns.n >= 0)
+            f = fresh_fun(label, I, I)
+            ns.fn = lambda i: f(i)
+            ns.enum = getattr(v, 'enum', None)
+            path.alloc.append(ns)
+            return ns
         raise Unsupported(f'havoc of {type(v).__name__} (give a builder in modifies)')
 
     def resolve_mod_target(self, it, entry, env):
@@ -415,6 +426,24 @@ class Engine:
                 if isinstance(n, ast.FunctionDef) and n is not node:
                     m.funcs.setdefault('__harness_' + n.name, n)
             return m, None, node, 'harness'
+        if c.loop is not None:
+            # the body of the loop-th for/while loop of the real function, extracted mechanically as a function of
+            # its free variables (= the contract's parameters): the inductive step of a loop-invariant proof
+            found = self.repo.find(c.qual)
+            if found is None:
+                return None
+            m, ci, fnode, kind = found
+            loops = [n for n in ast.walk(fnode) if isinstance(n, (ast.For, ast.While))]
+            loops.sort(key=lambda n: (n.lineno, n.col_offset))
+            if c.loop >= len(loops):
+                return None
+            lp = loops[c.loop]
+            args = ast.arguments(posonlyargs=[], args=[ast.arg(arg=a) for a in c.params], vararg=None, kwonlyargs=[],
+                                 kw_defaults=[], kwarg=None, defaults=[])
+            node = ast.FunctionDef(name=f'{fnode.name}__loop{c.loop}', args=args, body=lp.body, decorator_list=[],
+                                   returns=None, type_comment=None)
+            node.lineno, node.end_lineno, node.col_offset = lp.lineno, lp.end_lineno, lp.col_offset
+            return m, None, node, 'loop'
         return self.repo.find(c.qual)
 
     # ---- verification of one contract
@@ -470,7 +499,7 @@ class Engine:
                 'path_summaries': paths, 'dropped': sorted(dropped), 'wall_s': round(time.time() - t0, 3),
                 'props': c.props, 'trusted': c.trusted,
                 'replay_info': {'spec': c.spec, 'let': c.let, 'requires': c.requires, 'kind': kind, 'harness': c.harness,
-                                'module': c.module}}
+                                'module': c.module, 'native_patches': c.native_patches}}
 
     def run_path(self, c, m, ci, node, kind, prefix, pid):
         path = Path(self, prefix)
@@ -488,6 +517,12 @@ class Engine:
                 env.vars[nm] = self.eval_clause(it, ex, env)
             for nm, ex in c.requires:
                 path.assume(self.eval_clause(it, ex, env))
+            for hx in c.hints:
+                # index terms at which the universal preconditions are to be instantiated (proof hints only)
+                hv = self.eval_clause(it, hx, env)
+                if isinstance(hv, SV):
+                    path.note_idx(hv.t)
+                    path.__dict__.setdefault('hint_terms', {})[hv.t.get_id()] = hv.t
         except Infeasible:
             return None
         vcs = []
